@@ -23,7 +23,7 @@ EXIT_OK, EXIT_VIOLATION, EXIT_HARNESS = 0, 1, 3
 class Obligation:
     def __init__(self, name, fn, *, code=(), bounds='', native='auto', claim_doc='',
                  max_paths=20000, query_timeout_ms=10000, wall_s=150, hard_s=None,
-                 concretize_cap=64, tiers=('quick', 'thorough'), stop_on_violation=True,
+                 concretize_cap=64, tiers=('quick', 'thorough'), stop_on_violation=True, oneshot=True,
                  shims=(), outside='', min_paths=1, kind='symbolic'):
         self.name = name
         self.fn = fn
@@ -38,6 +38,7 @@ class Obligation:
         self.concretize_cap = concretize_cap
         self.tiers = tiers
         self.stop_on_violation = stop_on_violation
+        self.oneshot = oneshot
         self.shims = list(shims)
         self.outside = outside
         self.min_paths = min_paths
@@ -82,7 +83,7 @@ def _explore(ob, prop, known, conn):
         instrument.install()
         ex = core.Explorer(max_paths=ob.max_paths, query_timeout_ms=ob.query_timeout_ms,
                            concretize_cap=ob.concretize_cap, wall_s=ob.wall_s,
-                           stop_on_violation=ob.stop_on_violation)
+                           stop_on_violation=ob.stop_on_violation, oneshot=ob.oneshot)
         kn = [k for k in known if k.get('obligation') in (None, ob.name)]
         ex.known = kn
         ex.known_hits = {}
